@@ -139,6 +139,23 @@ func (p *pp) invalidateWrap(verb rune) {
 	}
 }
 
+// printVerbArg prints the operand of a directive of doPrintf. A %w
+// whose operand is rendered without being recorded as the wrapped
+// error - and without a bad verb report either: an empty byte slice,
+// an invalid reflect.Value, a redactable string - is a misuse of %w
+// like any other: HelperForErrorf then returns no error.
+func (p *pp) printVerbArg(arg interface{}, verb rune) {
+	if verb != 'w' {
+		p.printArg(arg, verb)
+		return
+	}
+	p.wrapCaptured = false
+	p.printArg(arg, verb)
+	if !p.wrapCaptured {
+		p.invalidateWrap(verb)
+	}
+}
+
 // wrappedValue returns the value enclosed in a Safe() or Unsafe()
 // wrapper. Whenever possible it is retrieved with the wrapper's
 // accessor and not by reflection on its (unexported) field, so that
